@@ -74,6 +74,19 @@ fn main() {
             check_iter_functor(&f, *tf, loc);
         }
     }));
+    // lax diagrams with pending unifications
+    let lps = if quick { Spec::lax(2, 1, 1, 2, 1, 1, 1, 1) } else { Spec::lax(3, 1, 2, 2, 1, 1, 1, 2) };
+    let lpu = lps.universe();
+    let tfp: Vec<TF> = vec![TF { n: [1, 1, 1], recipe: 0 }, TF { n: [2, 0, 1], recipe: 1 }, TF { n: [1, 2, 1], recipe: 2 }];
+    ctx.run_slice(Slice::new(format!("pending-unifications[{} x {} functors]", lps.name(), tfp.len()), lpu.count(), |i, loc| {
+        let l = lpu.get(i);
+        if !l.quot.is_empty() {
+            for tf in &tfp {
+                loc.more_cases(1);
+                check_pending::<B>(&l, *tf, loc);
+            }
+        }
+    }));
     let specid = if quick { Spec::open(3, 1, 2, 2, 2, 2, 2) } else { Spec::open(3, 2, 2, 2, 2, 2, 2) };
     let uid = specid.universe();
     let capid = if quick { 400_000 } else { 20_000_000 };
